@@ -9,7 +9,8 @@
 //	c09_term     a base term with function applications (type expressions, constructor
 //	             expressions over variables): round trip by parse.BaseTerm
 //	c09_clause   a clause given as a syntax tree: String(), round trip by parse.Clause
-//	             and parse.Unit
+//	             and parse.Unit; the library tables and the parsed tree for the clause model
+//	c09_clause_text   a text: what parse.Clause makes of it (clause.go)
 //	c09_parse    a text: what parse.Unit makes of  m(<text>\n, 0).  or  <text>\n.  (the model parser's counterpart)
 //	c09_unescape / c09_escape   ast.Unescape / ast.Escape on a byte string
 package main
@@ -442,10 +443,10 @@ type jclause struct {
 	Transform [][]jstmt   `json:"transform"`
 }
 
-func buildPremise(p jprem) (ast.Term, error) {
+func buildPremise(p jprem, ft *LibTables, pt *ParseTables) (ast.Term, error) {
 	switch p.Kind {
 	case "atom", "neg", "temporal":
-		a, err := buildAtom(*p.Atom, nil, nil)
+		a, err := buildAtom(*p.Atom, ft, pt)
 		if err != nil {
 			return nil, err
 		}
@@ -474,11 +475,11 @@ func buildPremise(p jprem) (ast.Term, error) {
 		tl.Interval = iv
 		return tl, nil
 	case "eq", "ineq":
-		l, err := buildBase(p.Left, nil, nil)
+		l, err := buildBase(p.Left, ft, pt)
 		if err != nil {
 			return nil, err
 		}
-		r, err := buildBase(p.Right, nil, nil)
+		r, err := buildBase(p.Right, ft, pt)
 		if err != nil {
 			return nil, err
 		}
@@ -490,8 +491,8 @@ func buildPremise(p jprem) (ast.Term, error) {
 	return nil, fmt.Errorf("bad premise kind %q", p.Kind)
 }
 
-func buildClause(j jclause) (ast.Clause, error) {
-	head, err := buildAtom(j.Head, nil, nil)
+func buildClause(j jclause, ft *LibTables, pt *ParseTables) (ast.Clause, error) {
+	head, err := buildAtom(j.Head, ft, pt)
 	if err != nil {
 		return ast.Clause{}, err
 	}
@@ -503,7 +504,7 @@ func buildClause(j jclause) (ast.Clause, error) {
 	if j.Premises != nil {
 		prem = []ast.Term{}
 		for _, p := range j.Premises {
-			t, err := buildPremise(p)
+			t, err := buildPremise(p, ft, pt)
 			if err != nil {
 				return ast.Clause{}, err
 			}
@@ -515,7 +516,7 @@ func buildClause(j jclause) (ast.Clause, error) {
 	for _, stmts := range j.Transform {
 		t := &ast.Transform{}
 		for _, s := range stmts {
-			fn, err := buildBase(s.Fn, nil, nil)
+			fn, err := buildBase(s.Fn, ft, pt)
 			if err != nil {
 				return ast.Clause{}, err
 			}
@@ -595,6 +596,7 @@ type constOut struct {
 	Tables *LibTables   `json:"tables"`
 	PTab   *ParseTables `json:"ptab"`
 	RT     string       `json:"rt"` // "" = the Go round trip holds
+	Tree   any          `json:"tree,omitempty"` // c09_clause: the clause parse.Clause read from S (clauseJ)
 }
 
 func init() {
@@ -692,11 +694,11 @@ func init() {
 		if err := json.Unmarshal(in, &j); err != nil {
 			return nil, err
 		}
-		cl, err := buildClause(j)
+		out := constOut{Tables: NewLibTables(), PTab: NewParseTables()}
+		cl, err := buildClause(j, out.Tables, out.PTab)
 		if err != nil {
 			return nil, err
 		}
-		out := constOut{}
 		s := cl.String()
 		out.S = hex.EncodeToString([]byte(s))
 		got, err := parse.Clause(s)
@@ -704,6 +706,8 @@ func init() {
 			out.RT = "parse.Clause: " + err.Error()
 			return out, nil
 		}
+		// what the parser returned, for the parser model (clause.go)
+		out.Tree = clauseJ(got)
 		out.RT = sameClause(cl, got)
 		if out.RT != "" {
 			return out, nil
